@@ -94,7 +94,8 @@ def main() -> None:
                 "evidence_file": f"/verif/evidence/{pid}.json",
                 "replay_cmd_template": f"./check {pid} --replay {{path}}",
                 "engine": "runtime-monitor",
-                "level_claimed": {"category": cat, "text": text, "design_ref": f"DESIGN.md section 4, {pid}"},
+                "level_claimed": {"category": cat, "text": text + " The workload was widened after each of six rounds of independently seeded property-breaking changes (120 archived under seeded/, all caught by the quick tier; DESIGN 9.4-9.9); the evidence counters name the input classes actually exercised in a run.",
+                                  "design_ref": f"DESIGN.md sections 4 and 9, {pid}"},
                 "level_note": note,
                 "technique": tech,
             }
